@@ -668,6 +668,17 @@ def check(ctx):
     ok = len(direct) == 1 and len(handed) == 1 and bool(nonempty_keys('extended_elements', False) & set(g4.fact_keys_at(direct[0][0]))) and \
         bool(nonempty_keys('extended_elements', True) & set(g4.fact_keys_at(handed[0][0])))
     ctx.inst('R9', rd, 'extended-pass', ok, 'completion is called directly only when no element is extended, otherwise handed to the extended-type fetcher')
+    # every extended element of every group is asked for its extended type - selected by is_extended() alone (a further condition,
+    # on the access mode say, leaves the persistence marker of the others unset)
+    app = g4.find(lambda n: method_call(n, 'append') and norm(n.func.value) == 'extended_elements')
+    oka = len(app) == 1 and len(app[0][1].args) == 1 and isinstance(app[0][1].args[0], ast.Name)
+    if oka:
+        ev = app[0][1].args[0].id
+        loops_ = [l for l in walk_own(rd.node) if isinstance(l, ast.For)]
+        oka = g4.fact_keys_at(app[0][0]) == {fact_key('%s.is_extended()' % ev, True)} and \
+            [norm(l.iter) for l in loops_] == ['self.toc.toc', 'self.toc.toc[%s].values()' % (norm(loops_[0].target) if loops_ else '?')] and norm(loops_[1].target) == ev
+    ctx.inst('R9', rd, 'every-extended-element-asked', oka, 'the elements handed to the extended-type fetcher are exactly those with is_extended(), over all groups; guards %s' %
+             (sorted(g4.fact_keys_at(app[0][0])) if len(app) == 1 else 'append sites: %d' % len(app)))
     tf = [c for c in walk_own(rt.node) if isinstance(c, ast.Call) and dotted(c.func) == 'TocFetcher']
     ctx.inst('R9', rt, 'fetcher-completion', len(tf) == 1 and len(tf[0].args) >= 5 and norm(tf[0].args[4]) == 'refresh_done' and norm(tf[0].args[1]) == 'ParamTocElement'
              and norm(tf[0].args[2]) == 'CRTPPort.PARAM', 'param TOC fetcher completes into refresh_done with ParamTocElement on the PARAM port')
